@@ -147,6 +147,12 @@ def run(ctx: Ctx) -> Result:
     res = Result(rule=RULE)
     res.relations = ["runner_obs: the recorded event trace is accepted by Runner.step_ev and ends in the observed counters and leftovers"]
     scs = [gen(rng, with_limit=True) for _ in range(ctx.scale(260, 4000))]
+    for sc in scs:
+        if rng.random() < 0.3:
+            # a consumer whose pause() / unpause() are round trips (as RabbitMQ's basic.qos)
+            sc["pause_round_trip"] = rng.choice([0.0005, 0.005, 0.05])
+            if sc.get("stop_at") is not None:
+                sc["stop_at"] += int(2 * sc["pause_round_trip"] * 1_000_000) * (len(sc["jobs"]) + 1)
     run_scenarios(ctx, res, scs, "c10")
     # run-on-enqueue
     outs = []
